@@ -26,6 +26,10 @@ for name in ('test_demo.py', 'demo.py'):
 for name in ('patch.diff', 'notes.md', demo):
     if name and os.path.exists(os.path.join(src, name)):
         shutil.copy(os.path.join(src, name), os.path.join(dest, name))
+# helper modules the demo imports
+for name in os.listdir(src):
+    if name.endswith('.py') and name not in ('test_demo.py', 'demo.py') and os.path.getsize(os.path.join(src, name)) < 200000:
+        shutil.copy(os.path.join(src, name), os.path.join(dest, name))
 # regenerate the patch from the worktree's actual diff (library files only) to be sure it is what is applied there
 diff = subprocess.run(['git', '-C', wt, 'diff', '--', 'rsocket', 'reactivestreams'], capture_output=True, text=True).stdout
 if diff.strip():
@@ -44,6 +48,9 @@ subprocess.check_call(['git', '-C', '/repo', 'worktree', 'add', '-q', '--detach'
 try:
     os.makedirs(os.path.join(scratch, '_seed'), exist_ok=True)
     shutil.copy(os.path.join(dest, demo), os.path.join(scratch, '_seed', demo))
+    for _n in os.listdir(dest):
+        if _n.endswith('.py') and _n != demo:
+            shutil.copy(os.path.join(dest, _n), os.path.join(scratch, '_seed', _n))
 
     def run_demo():
         if demo.startswith('test_'):
